@@ -3,12 +3,15 @@
 // Every wanted input of kind "parse" is run once more through the worker operation "V" (types.Parse with the
 // value decoded into a term of the model's type pv, plus the lexer's token stream through the hook
 // types.VerifTokens and the oracle tables), and written as a `mkCase ...` term. Inputs of kind "parsetype"
-// (Context.ParseType = Parse + Resolve) are covered by the direct check only: the resolver is not modelled.
+// (Context.ParseType = Parse + Resolve) that fall into the modelled part of the resolve stage (coq/Model/Resolve.v:
+// Enum[plain parameters], T[Deferred(name, plain arguments)]; the worker operation "R" decides) are written as
+// `mkRCase ...` terms into cases_resolve_N.v; the other creators are covered by the direct check only.
 package main
 
 import (
 	"fmt"
 	"strconv"
+	"strings"
 
 	"verifharness/lib"
 )
@@ -17,12 +20,41 @@ type emitter struct {
 	nbad   int
 	inputs []input
 	seen   map[string]bool
+	// candidates of the resolve tie; rbad: those on which the direct check failed (always kept)
+	rinputs []input
+	rbad    map[string]bool
 }
 
-func newEmitter() *emitter { return &emitter{seen: map[string]bool{}} }
+func newEmitter() *emitter { return &emitter{seen: map[string]bool{}, rbad: map[string]bool{}} }
+
+// resolveCandidate: a cheap textual filter; whether the input is inside the model is decided by the worker (op R)
+func resolveCandidate(s string) bool {
+	return strings.HasPrefix(s, "Enum[") || deferredCandidate(s)
+}
+
+// deferredCandidate: T[Deferred(...)] with nothing after the closing parenthesis
+func deferredCandidate(s string) bool {
+	i := strings.Index(s, "[Deferred(")
+	return i > 0 && !strings.ContainsAny(s[:i], "[({ ,") && strings.HasSuffix(s, ")]")
+}
+
+func (e *emitter) wantResolve(in input, bad bool) {
+	if in.Kind != "parsetype" || !resolveCandidate(in.bytes()) {
+		return
+	}
+	k := in.Kind + ":" + in.Hex
+	if bad {
+		e.rbad[k] = true
+	}
+	if !e.seen[k] {
+		e.seen[k] = true
+		e.rinputs = append(e.rinputs, in)
+	}
+}
 
 func (e *emitter) want(in input) {
 	if in.Kind != "parse" {
+		e.wantResolve(in, false)
 		return
 	}
 	k := in.Kind + ":" + in.Hex
@@ -88,7 +120,72 @@ func caseTerm(in input, o Obs) string {
 		lexEndTriple(o), resultTriple(o), val)
 }
 
+const resolveCasesMax = 4000
+const resolveCasesPerFile = 2000
+
+// emitResolve: the candidates (strided down to resolveCasesMax, the failed ones always kept) are run through the
+// worker operation R; those inside the model become the cases of cases_resolve_N.v.
+func (e *emitter) emitResolve(cfg *lib.Config, res *lib.Result, pool *Pool) {
+	if len(e.rinputs) == 0 {
+		return
+	}
+	max := resolveCasesMax
+	if cfg.Thorough() {
+		max *= 5
+	}
+	// the two kinds of candidates are strided separately
+	var ins []input
+	for _, enum := range []bool{true, false} {
+		var cs []input
+		for _, in := range e.rinputs {
+			if strings.HasPrefix(in.bytes(), "Enum[") == enum {
+				cs = append(cs, in)
+			}
+		}
+		stride := len(cs)/max + 1
+		for i, in := range cs {
+			if i%stride == 0 || e.rbad[in.Kind+":"+in.Hex] {
+				ins = append(ins, in)
+			}
+		}
+	}
+	reqs := make([]Req, len(ins))
+	for i, in := range ins {
+		reqs[i] = Req{"R", in.bytes()}
+	}
+	obs := pool.Run(reqs)
+	newFile := func() *lib.CasesFile {
+		return &lib.CasesFile{Imports: []string{"Model.Base", "Model.Parser", "Model.Resolve", "Corr.CorrC06"}, Typ: "c06rcase",
+			Obligations: map[string]string{"resolve_model": "resolve_mismatches cases"}}
+	}
+	cf := newFile()
+	nfile, n := 0, 0
+	flush := func() {
+		if len(cf.Cases) > 0 {
+			res.CorrFiles = append(res.CorrFiles, cf.WriteTo(cfg.Out, fmt.Sprintf("cases_resolve_%d", nfile)))
+			nfile++
+			cf = newFile()
+		}
+	}
+	for i, in := range ins {
+		o := obs[i]
+		if o.Term == "" || o.Aux["rkind"] == "" {
+			res.Count("corr.resolve.outside-model")
+			continue
+		}
+		res.Count("corr.resolve.kind" + o.Aux["rkind"] + ".class" + o.Aux["rclass"])
+		cf.Add(o.Term, in)
+		n++
+		if len(cf.Cases) >= resolveCasesPerFile {
+			flush()
+		}
+	}
+	flush()
+	res.Extra["corr_resolve_cases"] = n
+}
+
 func (e *emitter) emit(cfg *lib.Config, res *lib.Result, pool *Pool) {
+	e.emitResolve(cfg, res, pool)
 	if len(e.inputs) == 0 {
 		return
 	}
